@@ -33,7 +33,7 @@ structure Entry where
   ob : Nat
   ticks : Int
   interval : Int
-  deriving Repr, BEq, DecidableEq
+  deriving Repr, DecidableEq
 
 /-- observable events of a run (one canonical output line each) -/
 inductive Ev where
@@ -57,7 +57,7 @@ inductive Ev where
   | flag (o : Nat)                               -- the timer fired while o was running
   | hbs (self : Nat) (l : List Nat)              -- heart_beats()
   | junk (s : String)                            -- crash / sanitizer / unparsable line
-  deriving Repr, BEq, DecidableEq
+  deriving Repr, DecidableEq
 
 /-- what the next round-level event must be -/
 inductive Expect where
@@ -66,7 +66,7 @@ inductive Expect where
   | inBeat                   -- a heart_beat function is running
   | endOfRound               -- the next round-level event is tickEnd
   | abort                    -- an error was raised in a heart_beat: tickAbort must follow
-  deriving Repr, BEq, DecidableEq
+  deriving Repr, DecidableEq
 
 structure JState where
   done : List Entry := []
